@@ -38,6 +38,7 @@ Decided clause:
        batch loop may only be recomputed from itself, constants and other carried values: byte count,
        pointers, counters) -
        each batch starts from key, nonce and counter alone.
+  R3.11 in those functions the counter bytes are updated by exactly one carry chain that every iteration of the block loop runs.
   R3.5 the byte-wise 64-bit block counters of the portable Salsa20 / Salsa20/12 / Salsa20/8 code carry
        continuously: the loop-carried carry is recomputed from its previous value.
   R3.4 (E12 known-bits, contradiction rule) no carry / shifted value in the stream units is identically
@@ -169,10 +170,85 @@ def run(ctx, chk):
     from .. import knownbits
     knownbits.dead_carry_rule(prog, chk, "R3.4", ("crypto_stream/",), floor=5)
     # R3.5: the byte-wise block counters of the portable Salsa20 family carry continuously (u += in[i]; in[i] = u; u >>= 8)
-    knownbits.carry_continuity_rule(prog, chk, "R3.5", [
-        ("stream_ref", "crypto_stream/salsa20/ref/"), ("stream_ref_xor_ic", "crypto_stream/salsa20/ref/"),
-        ("crypto_stream_salsa2012", "crypto_stream/salsa2012/"), ("crypto_stream_salsa2012_xor", "crypto_stream/salsa2012/"),
-        ("crypto_stream_salsa208", "crypto_stream/salsa208/"), ("crypto_stream_salsa208_xor", "crypto_stream/salsa208/")], floor=4)
+    knownbits.carry_continuity_rule(prog, chk, "R3.5", list(R35_FUNCTIONS), floor=4)
+    counter_step_rule(prog, chk)
+
+
+R35_FUNCTIONS = (
+    ("stream_ref", "crypto_stream/salsa20/ref/"), ("stream_ref_xor_ic", "crypto_stream/salsa20/ref/"),
+    ("crypto_stream_salsa2012", "crypto_stream/salsa2012/"), ("crypto_stream_salsa2012_xor", "crypto_stream/salsa2012/"),
+    ("crypto_stream_salsa208", "crypto_stream/salsa208/"), ("crypto_stream_salsa208_xor", "crypto_stream/salsa208/"))
+
+
+def counter_step_rule(prog, chk):
+    """R3.11 the byte-wise block counter advances exactly once per block, unconditionally: inside the block loop every store to the
+    (nonce, counter) input array of the core lies in one inner loop (the carry chain over bytes 8..15), and that loop is on every
+    path from the core call to the next iteration (its header post-dominates the call). A shortcut that bumps byte 8 and only runs
+    the chain `if it wrapped' advances the counter by one block for 255 blocks and then jumps."""
+    from ..loopinv import natural_loops
+    n = 0
+    for name, usub in R35_FUNCTIONS:
+        for f in [g for g in prog.functions() if not g.decl and g.sname == name and usub in g.unit]:
+            loops = natural_loops(f)
+
+            def aroot(o, f=f):
+                for _ in range(32):
+                    if o[0] != "v":
+                        return None
+                    d = f.insts[o[1]]
+                    if d["op"] == "alloca":
+                        return o[1]
+                    if d["op"] in ("getelementptr", "bitcast"):
+                        o = d["ops"][0]
+                    else:
+                        return None
+                return None
+
+            def pdom(a, b, f=f):
+                """does block a post-dominate block b?"""
+                seen = 0
+                while b not in (-1, None) and seen < 1000:
+                    if a == b:
+                        return True
+                    b = f.blocks[b].get("ipdom", -1)
+                    seen += 1
+                return False
+            for i, ins in enumerate(f.insts):
+                c = ins.get("callee")
+                if ins["op"] != "call" or not c or c[0] != "g" or not c[1].startswith("crypto_core_salsa"):
+                    continue
+                outer = [(h, body) for h, body in loops.items() if ins["b"] in body]
+                if not outer:
+                    continue                   # the final partial block: the counter is not needed afterwards
+                h, body = min(outer, key=lambda x: len(x[1]))
+                arr = aroot(ins["ops"][1])
+                if arr is None:
+                    raise AnalysisBroken("R3.11: %s: the core's input block is not a local array" % name)
+                inner = [(h2, b2) for h2, b2 in loops.items() if h2 != h and b2 < body]
+                stores = [(j, s) for j, s in enumerate(f.insts) if s["op"] == "store" and s["b"] in body and aroot(s["ops"][1]) == arr]
+                homes = set()
+                stray = None
+                for j, s_ in stores:
+                    hs = [h2 for h2, b2 in inner if s_["b"] in b2]
+                    if not hs:
+                        stray = j
+                    homes.update(hs[:1] if hs else [])
+                n += 1
+                ok = bool(stores) and stray is None and len(homes) == 1 and pdom(next(iter(homes)), ins["b"])
+                why = ""
+                if not ok:
+                    if not stores:
+                        why = "the block loop never updates the counter bytes"
+                    elif stray is not None:
+                        why = "the store at %s updates the input block outside the carry chain (a second, separate increment)" % f.loc(stray)
+                    elif len(homes) != 1:
+                        why = "the input block is updated in %d different inner loops" % len(homes)
+                    else:
+                        why = "the carry chain starting at %s is not on every path from the core call to the next block: the counter " \
+                              "update is conditional" % f.loc(f.blocks[next(iter(homes))]["insts"][0])
+                chk.ob("R3.11", f, "after the core call at %s the counter bytes are updated by one unconditional carry chain" % f.loc(i), ok,
+                       loc=f.loc(stray if stray is not None else i), detail=why, key="R3.11 %s" % name)
+    chk.floor("R3.11", "block loops of the portable Salsa20 family", n, 4)
 
 
 # (stream function, the function that installs nonce and counter, unit substring). The two counter words are read from
